@@ -171,6 +171,15 @@ func init() {
 		imports: []string{"CircuitModel.GoCallConcPrims"}, open: []string{"CM", "CM.Go", "CM.GoCallI"}, vars: "", monad: "KM",
 		types: map[string]string{"context.Context": "Unit", "time.Time": "Int", "time.Duration": "Int", "error": "(Option Nat)", "bool": "Bool"},
 	}
+	// K6 for the WHOLE run (C01, C04, C05, C09, C10): circuit.go once more, over interference primitives
+	units["GoRunI"] = &unit{
+		name: "GoRunI", file: "circuit.go", recv: "Circuit",
+		funcs: []string{"now", "IsOpen", "allowNewRun", "throttleConcurrentCommands", "run", "checkSuccess", "checkErrInterrupt", "checkErrBadRequest",
+			"checkErrFailure", "checkErrTimeout", "attemptToOpen", "openCircuit", "close"},
+		imports: []string{"CircuitModel.GoRunConcPrims"}, open: []string{"CM", "CM.Go", "CM.GoRunI"}, vars: "", monad: "RM",
+		types: map[string]string{"context.Context": "Ctx", "time.Time": "GoTime", "time.Duration": "Dur", "error": "Err", "bool": "Bool", "int64": "Int",
+			"func(context.Context) error": "RunFn", "func()": "Fn0"},
+	}
 	never := []string{"Success", "ErrFailure", "ErrTimeout", "ErrBadRequest", "ErrInterrupt", "ErrConcurrencyLimitReject", "ErrShortCircuit", "Opened", "Closed"}
 	units["GoNeverOpens"] = &unit{name: "GoNeverOpens", file: "closers.go", recv: "neverOpens", funcs: append([]string{"Prevent", "ShouldOpen"}, never...),
 		imports: []string{"CircuitModel.GoLiveLogicPrims"}, open: []string{"CM", "CM.Go", "CM.GoNever"}, vars: "", monad: "NM", types: consumerTypes}
